@@ -111,6 +111,19 @@ func (m *Machine) CheckAllIssued(where string) {
 func (m *Machine) checkImportedSecret(where string, ma waddrmgr.ManagedAddress, im *Imported) {
 	unlocked := !m.Locked && !m.WatchOnly
 	switch im.Kind {
+	case "pubkey":
+		// a public key imported on its own: the address knows its key, and
+		// there is no private key to hand out in any lock state
+		pka, ok := ma.(waddrmgr.ManagedPubKeyAddress)
+		if !ok {
+			m.Violation("[%s] imported public key address %s is a %T", where, im.Addr, ma)
+		}
+		if !bytes.Equal(pka.PubKey().SerializeCompressed(), im.Script) {
+			m.Violation("[%s] imported public key %s: PubKey() is not the imported key", where, im.Addr)
+		}
+		if priv, err := pka.PrivKey(); err == nil || priv != nil {
+			m.Violation("[%s] address %s of a public key imported without private key returns a private key", where, im.Addr)
+		}
 	case "wif":
 		pka, ok := ma.(waddrmgr.ManagedPubKeyAddress)
 		if !ok {
